@@ -12,8 +12,8 @@ RULE = ("Enumeration over every key of the generator registry (71 runnable names
         "player count in the tier's range, generation (Hypothesis) over seeds: GENERATORS[name](n, default_rng(seed)). Oracle: "
         "returns without exception; number_of_players == n; 2^n float64 finite values; v(empty) == 0; superadditive by the textbook "
         "definition (exact for integer-valued results, 1e-9*scale slack otherwise - independent of the library's predicate); "
-        "additionally monotone non-increasing for the XOS / XS / OXS / K-budget / coverage families; two identically seeded calls "
-        "return identical arrays except for the documented exceptions (graph-weight-distribution family, round-robin factory). "
+        "additionally monotone non-increasing for the XOS / XS / OXS / K-budget / coverage families; two identically seeded calls (with "
+        "unrelated calls for other player counts in between, and compared with a pristine forked process that never generated anything) return identical arrays except for the documented exceptions (graph-weight-distribution family, round-robin factory). "
         "Non-trivial: a game with >= 3 distinct values; distinct = (name, n, seed).")
 LEVEL_TEXT = ("The registry and the player-count range are enumerated completely, seeds are generated; class membership is decided by "
               "textbook predicates in exact arithmetic. A for-all over seeds is explored, not proved.")
@@ -28,6 +28,74 @@ def max_n_for(name: str, tier: str) -> int:
     if name == "covg_fn_generator":
         return 5 if tier == "quick" else 6
     return 6 if tier == "quick" else 8
+
+
+class Pristine:
+    """A forked helper process that has imported the generators but never called one; every query is answered by a
+    grandchild forked from that pristine state, so the answer is what a fresh interpreter would produce."""
+
+    def __init__(self):
+        import os
+        from incomplete_cooperative.generators import GENERATORS  # noqa: F401 - imported before the fork
+        from .. import libgames  # noqa: F401
+        self.req_r, self.req_w = os.pipe()
+        self.res_r, self.res_w = os.pipe()
+        self.pid = os.fork()
+        if self.pid == 0:
+            os.close(self.req_w)
+            os.close(self.res_r)
+            self._serve()
+            os._exit(0)
+        os.close(self.req_r)
+        os.close(self.res_w)
+        self.rf = os.fdopen(self.res_r, "r")
+        self.wf = os.fdopen(self.req_w, "w")
+
+    def _serve(self):
+        import json
+        import os
+        rf = os.fdopen(self.req_r, "r")
+        for line in rf:
+            name, n, seed = json.loads(line)
+            pid = os.fork()
+            if pid == 0:
+                out = "error"
+                try:
+                    out = _values_hash(name, n, seed)
+                except BaseException as exc:  # noqa: BLE001
+                    out = "error:" + type(exc).__name__
+                os.write(self.res_w, (out + "\n").encode())
+                os._exit(0)
+            os.waitpid(pid, 0)
+
+    def query(self, name, n, seed) -> str:
+        import json
+        self.wf.write(json.dumps([name, n, seed]) + "\n")
+        self.wf.flush()
+        return self.rf.readline().strip()
+
+    def close(self):
+        import os
+        try:
+            self.wf.close()
+            os.waitpid(self.pid, 0)
+            self.rf.close()
+        except Exception:  # noqa: BLE001
+            pass
+
+
+def _values_hash(name, n, seed) -> str:
+    import hashlib
+
+    import numpy as np
+    from incomplete_cooperative.generators import GENERATORS
+    from .. import libgames
+    libgames.reseed_module_state(seed)
+    g = GENERATORS[name](n, np.random.default_rng(seed))
+    return hashlib.blake2b(np.asarray(g.get_values(), dtype=float).tobytes(), digest_size=8).hexdigest()
+
+
+PRISTINE: Pristine | None = None
 
 
 @guarded
@@ -67,14 +135,29 @@ def check_case(case: dict) -> Result:
     for s in (0, 1, (1 << n) - 1, (1 << n) // 2 + 1):
         if float(game.get_value(repo.coal(s))) != v[s]:
             res.fail(f"get_value!=get_values :: {w}: coalition {s}")
-    # determinism
-    libgames.reseed_module_state(seed + 12345)      # module-level state deliberately different for the second call
+    # determinism: the identically seeded second call comes after unrelated calls with other player counts (anything
+    # memoised per process must not leak between calls) and with different module-level state
+    libgames.reseed_module_state(seed + 12345)
+    for other_n in (n + 2, n + 1, n - 1):
+        if 3 <= other_n <= max_n_for(name, "quick") + 1:
+            try:
+                GENERATORS[name](other_n, np.random.default_rng(seed + other_n))
+            except Exception:  # noqa: BLE001 - judged when that (name, n) is the case under test
+                pass
     again = GENERATORS[name](n, np.random.default_rng(seed))
     same = np.array_equal(np.asarray(again.get_values()), vals)
     if libgames.ignores_seed(name):
         res.label("documented-seed-exception")
     elif not same:
-        res.fail(f"not-deterministic :: {w}: two identically seeded calls returned different games")
+        res.fail(f"not-deterministic :: {w}: two identically seeded calls (with calls for other player counts in between) returned different games")
+    elif PRISTINE is not None:
+        import hashlib
+        mine = hashlib.blake2b(vals.astype(float).tobytes(), digest_size=8).hexdigest()
+        fresh = PRISTINE.query(name, n, seed)
+        res.label("compared-with-fresh-process")
+        if fresh != mine:
+            res.fail(f"not-deterministic :: {w}: the game differs from the one an identically seeded call returns in a fresh process "
+                     f"(the result depends on what the process generated before)")
     res.nontrivial = len(set(v)) >= 3
     res.label(f"n={n}", "integral" if integral else "float-valued")
     return res
@@ -92,7 +175,18 @@ def plan(tier: str) -> list[dict]:
 
 
 def run_shard(spec: dict, ctx: Ctx) -> None:
+    global PRISTINE
     tier = ctx.tier
+    visited = 0
+    PRISTINE = Pristine()
+    try:
+        _run(spec, ctx, tier)
+    finally:
+        PRISTINE.close()
+        PRISTINE = None
+
+
+def _run(spec: dict, ctx: Ctx, tier: str) -> None:
     visited = 0
     for j, name in enumerate(spec["names"]):
         for n in range(3, max_n_for(name, tier) + 1):
